@@ -3,6 +3,8 @@ CONSTANTS
   NT = 2
   NU = 1
   NA = 0
+  Throwing = FALSE
+  WithMake = TRUE
   Vals = {1, 2}
 INVARIANTS TypeOK WellFormed LastAgrees
 PROPERTIES RefProtocolLegal Independence CopiesEqualSource
